@@ -57,10 +57,16 @@ def install(ns, unit_size=200, sample_of=None):
             s = sample_of(pts[0]) if sample_of else pts[0]
             res["samples"].append(s)
         res["violations"] = compress(res["violations"])
+        if "end_of_unit" in ns:
+            ns["end_of_unit"]()   # e.g. removal of per-process scratch files
         return res
 
     def replay(witness):
-        return ns["check_point"](witness["point"])[0]
+        try:
+            return ns["check_point"](witness["point"])[0]
+        finally:
+            if "end_of_unit" in ns:
+                ns["end_of_unit"]()
 
     ns.setdefault("units", units)
     ns.setdefault("run_unit", run_unit)
